@@ -189,10 +189,13 @@ Section Ws.
       split; [lia|]. auto.
   Qed.
 
-  Lemma ws_facts : Facts Rdeq Rws err_sim tok_sim Ridx.
+  Notation anycmp := (fun _ : token => true).
+  Lemma ws_facts : Facts Rdeq Rws err_sim tok_sim Ridx anycmp.
   Proof.
     constructor.
-    - intros t t' H. exact H.
+    - intros t t' H. left. exact H.
+    - intros e t t' _ H. rewrite H. reflexivity.
+    - reflexivity.
     - apply ws_peek.
     - apply ws_next.
     - apply ws_prev.
@@ -221,21 +224,22 @@ Section Ws.
     pose proof (remaining_length s). pose proof (remaining_length s').
     rewrite (skip_semis_stable (S (length (toks s))) N d s) by (unfold N; lia).
     rewrite (skip_semis_stable (S (length (toks s'))) N d' s') by (unfold N; lia).
-    apply (rel_skip_semis Rdeq Rws err_sim tok_sim Ridx ws_facts N); assumption.
+    apply (rel_skip_semis Rdeq Rws err_sim tok_sim Ridx anycmp ws_facts N); assumption.
   Qed.
 
   (** The theorem: pairs of programs built alike from the skipping interface are related. *)
   Theorem ws_invariance A (RA : A -> A -> Prop) (p p' : M A) :
     IfaceR tok_sim A RA p p' -> RelW RA p p'.
-  Proof. apply (ifaceR_sound Rdeq Rws err_sim tok_sim Ridx ws_facts ws_skip_all). Qed.
+  Proof. apply (ifaceR_sound Rdeq Rws err_sim tok_sim Ridx anycmp ws_facts ws_skip_all). Qed.
 
   (** ... in particular every program of the closure language that stays away from the
       non-skipping primitives, related to itself. *)
   Theorem ws_invariance_prog rr fuel p :
     skipping_only p = true -> RelW (val_rel tok_sim) (denote rr fuel p) (denote rr fuel p).
   Proof.
-    intro H. apply (denote_rel Rdeq Rws err_sim tok_sim Ridx ws_facts ws_skip_all false); try discriminate.
-    exact H.
+    intro H. apply (denote_rel Rdeq Rws err_sim tok_sim Ridx anycmp ws_facts ws_skip_all false); try discriminate.
+    - exact H.
+    - apply prog_cmp_ok_all.
   Qed.
 End Ws.
 
@@ -262,7 +266,7 @@ Theorem ws_invariance_statements ts ts' A (RA : A -> A -> Prop) (stmt stmt' : M 
      (fst (parse_statements fuel stmt' d (init_state ts' tcf limit))).
 Proof.
   intros Hs Hi.
-  apply (ws_invariance ts ts' Hs _ _ _ _ (R_parse_statements tok_sim A RA fuel stmt stmt' Hi)
+  apply (ws_invariance ts ts' Hs _ _ _ _ (R_parse_statements tok_sim (fun _ => true) A RA fuel stmt stmt' Hi)
            d d (init_state ts tcf limit) (init_state ts' tcf limit) eq_refl).
   repeat split; reflexivity.
 Qed.
